@@ -88,7 +88,7 @@ impl<T: Clone + Copy + Number + PartialOrd + Neg<Output = T>> Banded<T> {
         self.compact.fill_col( (self.m1 as isize + band) as usize, value );
     }
 
-    fn decompose(&self, au: &mut Matrix<T>, al: &mut Matrix<T>, index: &mut Vector<usize>, d: &mut T ) {
+    fn decompose(&self, au: &mut Matrix<T>, al: &mut Matrix<T>, index: &mut Vector<usize>, d: &mut T ) where T: Signed {
         let mm = self.m1 + self.m2 + 1;
         let mut l = self.m1;
         for i in 0..self.m1 {
@@ -106,14 +106,14 @@ impl<T: Clone + Copy + Number + PartialOrd + Neg<Output = T>> Banded<T> {
         l = self.m1;
         for k in 0..self.n {
             //let mut dum = au[ k ][ 0 ];
-            let mut dum = au[(k, 0)];
+            let mut dum = au[(k, 0)].abs();
             let mut i = k;
             if l < self.n { l += 1; }
             for j in k + 1..l {
                 //if au[ j ][ 0 ] > dum {
-                if au[(j, 0)] > dum {
+                if au[(j, 0)].abs() > dum {
                     //dum = au[ j ][ 0 ];
-                    dum = au[(j, 0)];
+                    dum = au[(j, 0)].abs();
                     i = j;
                 }
             }
@@ -144,7 +144,7 @@ impl<T: Clone + Copy + Number + PartialOrd + Neg<Output = T>> Banded<T> {
 
     /// Return the determinant of the matrix
     #[inline]
-    pub fn det( &self ) -> T {
+    pub fn det( &self ) -> T where T: Signed {
         let mut au = self.compact.clone();
         let mut al = Matrix::new( self.n, self.m1, T::zero() );
         let mut index = Vector::new( self.n, 0 );
@@ -161,7 +161,7 @@ impl<T: Clone + Copy + Number + PartialOrd + Neg<Output = T>> Banded<T> {
     /// Solve the linear system Bx = b where B is the banded matrix and b is a vector
     /// Return the solution vector x
     #[inline]
-    pub fn solve( &self, b: &Vector<T> ) -> Vector<T> {
+    pub fn solve( &self, b: &Vector<T> ) -> Vector<T> where T: Signed {
         if self.n != b.size() { 
             panic!( "Banded matrix solve error: dimensions do not agree." ); 
         }
